@@ -35,9 +35,22 @@ CsrLowering(c, a, b) ==
   ELSE IF ~NoStateLeft(c.B) THEN "NoStateLeft"
   ELSE MatchCsr(c.accdecl, a.log, 1, b.log, 1)
 
+(* ---- same side effects (C17 loop restructuring) ---- *)
+EffectEventOK(ea, eb) ==
+  /\ ea.k = eb.k
+  /\ CASE ea.k = "op" -> ea.n = eb.n /\ ea.s = eb.s /\ ea.vals = eb.vals
+       [] ea.k = "ret" -> ea.vals = eb.vals
+       [] OTHER -> AccfgEventOK(ea, eb)
+SameEffects(a, b) ==
+  IF b.fault # "none" THEN "B.fault:" \o b.fault
+  ELSE IF FirstBad(a.log, b.log, EffectEventOK) # 0 THEN "EffectSequence"
+  ELSE IF Len(a.log) # Len(b.log) THEN "EffectCount"
+  ELSE "ok"
+
 Judge(contract, c, a, b) ==
   IF a.fault # "none" THEN "skipA:" \o a.fault
   ELSE CASE contract \in {"dedup", "overlap", "trace"} -> AccfgObs(a, b)
          [] contract = "csr" -> CsrLowering(c, a, b)
+         [] contract = "effects" -> SameEffects(a, b)
          [] OTHER -> "machinery:unknown-contract"
 =============================================================================
